@@ -656,6 +656,10 @@ func (node *CallGraphStage) resolve(siblings map[string]*ResolvedBinding,
 				Type: lookup.Get(tid),
 			}
 		}
+	} else if node.isAlwaysDisabled() {
+		// A stage without outputs which maps over an empty or null
+		// collection must still be recorded as disabled, or it would run.
+		node.Disable = alwaysDisable(node.Disable)
 	}
 	return errs.If()
 }
